@@ -150,10 +150,16 @@ class Mailbox:
                              " WHERE `app_id`=? AND `mailbox_id`=?",
                              (self._app_id, self._mailbox_id)).fetchall()
         for np_row in np_rows:
+            np_side_rows = db.execute("SELECT * FROM `nameplate_sides`"
+                                      " WHERE `nameplates_id`=?",
+                                      (np_row["id"],)).fetchall()
             db.execute("DELETE FROM `nameplate_sides` WHERE `nameplates_id`=?",
                        (np_row["id"],))
             db.execute("DELETE FROM `nameplates` WHERE `id`=?",
                        (np_row["id"],))
+            if self._usage_db:
+                self._app._summarize_nameplate_and_store(np_side_rows, when,
+                                                         pruned=False)
         # remove mailbox content
         db.execute("DELETE FROM `messages` WHERE `mailbox_id`=?",
                    (self._mailbox_id,))
